@@ -426,6 +426,9 @@ func rowsHave(rows map[string]any, until map[string]any) bool {
 // receivedHas: has a message for the task named by until ({"task": id}) arrived?
 func receivedHas(v any, until map[string]any) bool {
 	list, _ := v.([]any)
+	if _, named := until["task"]; !named {
+		return len(list) > 0 // any message
+	}
 	for _, e := range list {
 		m, _ := e.(map[string]any)
 		t, _ := m["task"].(map[string]any)
